@@ -26,6 +26,9 @@ FIXED = [
  ("C02", "c02:older-or-wrong-value (newest entry compressed)", "an older cross-reference entry must not replace a newer compressed one", "newest section stores obj n in an object stream, older section has it direct: resolve(n) returned the old value"),
  ("C11", "c11:stream-error:ref-to-compressed-int", "the expected-type flags of a resolve do not apply", "/Length n 0 R with n stored in an object stream: PrimitiveNotAllowed"),
  ("C05", "c05:ASCIIHexDecode:hex-odd-final-digit", "ASCIIHexDecode with an odd number of digits", "'3>' decoded to nothing instead of 0x30 (found by C11 through a filtered stream)"),
+ ("C06", "c06:*:AESV3 DecryptionFailure", "AES-256 decryption must use the full 32-byte file key", "every string and stream of an AES-256 (R5/R6) document failed with DecryptionFailure"),
+ ("C17", "c17:differs:scan.object", "scan() must take offsets relative to the header", "with a 1-byte prefix scan() returned objects whose stream data came from the wrong place; range ended early"),
+ ("C01", "panic:pdf/src/file.rs:pdf::file::Storage::scan:called `Result::unwrap()`", "scan() reports a missing or out-of-range startxref", "scan() unwrapped the startxref lookup and the range read"),
 ]
 OPEN = [
 ]
